@@ -234,7 +234,7 @@ check('C10', 'render',
 check('C04', 'llparser',
       'TLA+ reference tokenizer (state machine over the characters of the text) and judge of the positions observed on '
       'the real parser; texts come from a TLC builder',
-      'TLC builds all texts of 1 line x 4 chars and 2 lines x 2 chars (thorough: 1x5, 2x3, 3x2) over an alphabet with '
+      'TLC builds all texts of 1 line x 4 chars and 2 lines x 2 chars (thorough: 1x5, 2x3) over an alphabet with '
       'every character class (space, form feed, word, digit, quoted string, multi-line span opener/closer, unmatched) and '
       'simulates texts of 4 lines; each is parsed as str and as list of lines with two grammars (whitespace skipped / '
       'kept as tokens; empty nodes first, in the middle and last).  TLC re-tokenizes the text with the reference '
